@@ -3,8 +3,8 @@
  * Sources are user-defined iterators over symbolic sorted arrays whose key/value buffers are overwritten on every call
  * (the API allows sources to invalidate old buffers).  mtbl/iter.c's three dispatchers are modelled directly.
  * Harnesses start from an ARBITRARY merger-iterator state satisfying the invariant M (every history of next/seek). */
-#include "/repo/mtbl/merger.c"
-#include "/repo/libmy/heap.c"
+#include "mtbl/merger.c"
+#include "libmy/heap.c"
 #include "spec/ghost.h"
 void *realloc(void *p, size_t n) { VG_A(0, "no vector growth expected in this capped harness"); __CPROVER_assume(0); return p; }
 
